@@ -20,3 +20,7 @@ int api_varn_flex(int kind, bool coll, int ncid, int varid, int num, MPI_Offset 
 int api_vard(int kind, bool coll, int ncid, int varid, MPI_Datatype filetype, void *buf, MPI_Offset bufcount, MPI_Datatype bt);
 int api_put_att(int ncid, int varid, const char *name, int xtype, MPI_Offset n, const void *buf, int mt);
 int api_get_att(int ncid, int varid, const char *name, void *buf, int mt);
+// multi-variable APIs ncmpi_m{put,get}_var{a,s,m}[_<type>][_all]: form F_VARA / F_VARS / F_VARM, kind K_PUT / K_GET
+int api_m_typed(int kind, int form, bool coll, int ncid, int nvars, int *varids, MPI_Offset *const *s, MPI_Offset *const *c, MPI_Offset *const *st, MPI_Offset *const *im, void **bufs, int mt);
+int api_m_flex(int kind, int form, bool coll, int ncid, int nvars, int *varids, MPI_Offset *const *s, MPI_Offset *const *c, MPI_Offset *const *st, MPI_Offset *const *im, void **bufs,
+               const MPI_Offset *bufcounts, const MPI_Datatype *bts);
